@@ -68,7 +68,7 @@ OPS = [
     (r"<<", ">>"), (r"!\(", "("),
 ]
 
-SKIP_LINE = re.compile(r"^\s*(//|#\[|log::|debug_assert|asan::|msan::|use |pub use |mod |\}|\{|$)|verif::|a10_verif|unreachable!|panic!|\.field\(|f\.debug_|write!\(|stringify!|concat!|=> "|const fn|\bconst [A-Z_]+:|doc\s*=")
+SKIP_LINE = re.compile(r"^\s*(//|#\[|log::|debug_assert|asan::|msan::|use |pub use |mod |\}|\{|$)|verif::|a10_verif|unreachable!|panic!|\.field\(|f\.debug_|write!\(|stringify!|concat!|=> \x22|const fn|\bconst [A-Z_]+:|doc\s*=")
 
 
 def sh(cmd, cwd=None, timeout=None, env=None):
